@@ -284,7 +284,7 @@ pub fn run(a: &Args, r: &mut Report) {
         check_payload(r, &p, "commb");
     }
     // (d) exhaustive 16-bit windows (thorough)
-    if a.thorough() {
+    if a.thorough() && !a.asan {
         let mut k = 0u64;
         for tc in 0..32u8 {
             for off in [6usize, 14, 22, 30, 38, 41] {
